@@ -157,6 +157,19 @@ CLAIMED = {
         note="search on the real code; common arena model tied to both back ends by correspondence.",
         technique="cross-backend differential on the real code + correspondence with a common Lean model",
         design="6/C04"),
+    "C12": dict(
+        category="proof",
+        text="Lean theorem C12_history over an abstract lifecycle model: for ANY history of calls on one object — completed or "
+             "aborted at any point — the result of a call equals the result of the same call on the object as constructed, "
+             "provided every attribute the code writes outside __init__ is definitely re-assigned by _parse/reset (or is "
+             "write-before-read) and reset re-creates the phase objects. Those side conditions are decided in the kernel on "
+             "attribute lists extracted from the AST of html5parser.py / treebuilders on every run (parser, tree builder, "
+             "phase objects), so a forgotten reset breaks the obligation. Memo tables: any interleaving of atomic lookups "
+             "returns f(k). The conclusion is checked on the real objects by histories with aborts at every read / strict "
+             "ParseError, serializer and walker reuse, threads, and (thorough) a fresh interpreter.",
+        note="abstract model; AST extraction of attribute writes; CPython dict atomicity assumed for the thread clause.",
+        technique="Lean 4 proof (parametric reset theorem + kernel-decided extracted tables) + history search on real objects",
+        design="6/C12"),
 }
 
 PENDING_REASON = "check under construction in this round: model/theorems not yet committed (see DESIGN section 8); not claimed"
